@@ -96,6 +96,12 @@ CHECKS = {
         design_ref="DESIGN.md section 4 C06, appendix B.5",
         note="Trusted: Coq kernel (no axioms); Loop.v's reading of the ONNX Loop/If spec (cross-checked each run against onnxruntime on 300 hand-built Loop runs + the steering sweep) and of the JAX docs; the ModelProto extractor in harness/c06.py. Not modelled: scan plumbing beyond the extracted parameters (dtype fix-up casts, axis-0 override/Expand/Pad and scatter-extent heuristics) and the lowering of bodies/conditions themselves (C01); these are only exercised by the sweep. Assumes trip count <= int64 max and no int32 wrap of lower+i.",
         technique="Rocq proof by induction on the iteration count over Gallina models of ONNX Loop/If and the plugin wiring; fail-closed structural extraction of scheme parameters from exported ModelProtos; ORT-vs-eager-JAX steering sweep as validation and counterexample search"),
+    "C14": dict(
+        category="proof",
+        text="Proof, partial: Determinism.v proves a fold-order-irrelevance schema (equal results under any permutation when members commute) and instantiates it for every loop over a Python set in the optimizer and function-call lowering (sites identified by (file,function,variable), re-derived from the AST each run): replace_all_uses_with loops over Graph.v under the exact side condition shown to follow from the pass's matching, list(set) removal, read-only check/collect loops with break, dict build, guarded removal, per-node rewiring, refresh in graph order, iteration over sorted(set) (sorting is permutation-invariant, proved). The two sites that were order-dependent on the original tree are kept as refuted statements (fixed in /repo 77c9ea7). Names are a function of the request iff every counter family is per conversion (proved as an equivalence, instantiated for the tree's scopes, tied by AST + behaviour each run); the lowering-signature memo table is transparent. The property itself is explored on the real code: 32 requests x fresh subprocesses under 8/64 PYTHONHASHSEEDs, randomised histories with failing conversions, 3x repeats, shuffled plugin import order and forced legal set iteration orders; sha256 of deterministic serialisation must agree.",
+        design_ref="DESIGN.md section 4 C14",
+        note="Trusted: Coq kernel (no axioms); hand-written per-element action models (tied to the source through the AST site scan, a per-site allowlist of loop-body callees and a runtime trace of every iteration over sets created in the converter core); NOT modelled and covered only by the sweep: CPython hash order, id()/memory layout, onnx_ir per-value use order, onnx_ir common passes, protobuf deterministic serialisation.",
+        technique="Rocq commutation proofs over a fold/permutation schema + refutation by vm_compute; AST and runtime site enumeration; subprocess differential sweep over hash seeds, conversion histories, import orders and forced set iteration orders"),
     "C15": dict(
         category="proof",
         text="Proof about the modelled save/load logic (partial: the third-party writer is assumed): FileModes.v models jax2onnx's _save_model_proto (standard: spill >= threshold to <name>.data, nothing truncated/removed before writing, sidecar removed only if unreferenced AND empty; web: self-contained, sidecar removed) on top of an explicit assumed onnx writer variant (append/truncate, CWD-relative existence check on/off) and onnx.load's (location, offset, length) resolution. Coq proves by induction over unbounded histories of exports to one path (any mix of modes/sizes/CWDs, raising exports included, arbitrary prior directory) that the file loads bit-exactly to the last non-raising export, that web output is a single self-contained file, and that every external reference lies inside the region written by the last export; the full-strength 'load = last export' is REFUTED (FileExistsError when re-exporting from inside the output directory) and proved under the exact hypothesis 'the last export does not raise'.",
